@@ -24,6 +24,7 @@ type LinkSpec struct {
 	AB      []Fault `json:"ab,omitempty"`  // programme for datagrams a->b
 	BA      []Fault `json:"ba,omitempty"`  // programme for datagrams b->a
 	Frame   []int   `json:"frame,omitempty"` // if non-empty: carry the datagrams as a framed byte stream cut into these chunk sizes (cycled)
+	Socket  string  `json:"socket,omitempty"` // "tcp" | "ws": real listener/dialer backends of pkg/backends on loopback, through a proxy that re-chunks the byte stream (Frame = piece sizes)
 }
 
 // TapFunc observes every datagram offered to a link direction (before faults). dir 0 = a->b, 1 = b->a.
